@@ -710,8 +710,12 @@ func (w *World) execFailStorable(st *Step) *Violation {
 	fired := w.Ctl.Fired["storable"]
 	w.Ctl.Reset()
 	if fired == 0 {
-		// the value's Storable() was never asked (cannot happen for scalars): treat as harness trouble
-		return w.viol("harness", "failstor: Storable() was not called")
+		if err != nil {
+			// rejected before the value was asked for its storable (e.g. by the collision limit): nothing changed
+			w.result("failstor rejected earlier")
+			return nil
+		}
+		return w.viol("harness", "failstor: the mutation succeeded without asking the value for its storable")
 	}
 	w.Stats.Inc("fault.callback.storable")
 	if err == nil {
